@@ -168,6 +168,39 @@ RESULTS.append(("C10/C11.AbiVer (negative configuration NameBlind = TRUE)",
                 "TLC %s" % ("reports ArgTransparent violated by the remref call (the F23 counterexample is a behaviour of the model)" if hit
                             else "did NOT find the expected counterexample"), hit))
 
+# ---- C16 forced schedules: a schedule that is NOT a behaviour of the real code must not be followable
+import subprocess
+sched_file = os.path.join(WORK, "cachesched_quick_CacheSched.ndjson")
+abi = os.path.join(os.environ.get("CARGO_TARGET_DIR", os.path.join(vlib.HARNESS, "target")), "debug", "abi")
+plugin = os.path.join(os.path.dirname(abi), "libplugin.so")
+if os.path.exists(sched_file) and os.path.exists(abi):
+    recs = [json.loads(l) for l in open(sched_file)]
+    def run_sched(rec):
+        f = os.path.join(WORK, "selftest_sched.json")
+        json.dump(rec, open(f, "w"))
+        pr = subprocess.run([abi, "sched", plugin, f], stdout=subprocess.PIPE, stderr=subprocess.PIPE, timeout=120)
+        o = json.loads(pr.stdout.decode().strip().splitlines()[-1])
+        return o["failed"] is None and o["followed"] == o["total"] and not o["hung"] and o["results_ok"]
+    tried = rejected = clean_ok = 0
+    for rec in recs:
+        ls = [e["l"] for e in rec["sched"]]
+        if "Miss" not in ls or tried >= 6:
+            continue
+        clean_ok += 1 if run_sched(rec) else 0
+        bad1 = copy.deepcopy(rec)
+        bad1["sched"][ls.index("Miss")]["l"] = "Hit"                   # the model claims a cache hit where the code must miss
+        bad2 = copy.deepcopy(rec)
+        i = ls.index("Insert")
+        bad2["sched"] = bad2["sched"][:i] + bad2["sched"][i + 1:]      # the model forgets the Insert step
+        for b in (bad1, bad2):
+            tried += 1
+            rejected += 0 if run_sched(b) else 1
+    RESULTS.append(("C16.CacheSched: corrupted schedules (Miss -> Hit, Insert removed)",
+                    "%d corrupted schedules, %d not followable by the real threads; %d/%d uncorrupted ones followed" % (tried, rejected, clean_ok, tried // 2),
+                    tried > 0 and rejected == tried and clean_ok == tried // 2))
+else:
+    RESULTS.append(("C16.CacheSched", "SKIPPED (run bin/check C16 first)", True))
+
 bad = 0
 for (name, text, ok) in RESULTS:
     print("%s  %s: %s" % ("PASS" if ok else "FAIL", name, text))
